@@ -120,8 +120,9 @@ pub fn u16_boundary() -> Vec<u16> {
 
 /// payload lengths that put the AVP length at 7, 8, 9, 21..23, 255..257, 511/512, 1022/1023
 pub const VAR_LENGTHS: [usize; 17] = [1, 2, 3, 15, 16, 17, 249, 250, 251, 254, 255, 256, 257, 505, 506, 1016, 1017];
-/// lengths whose AVP would exceed 1023 octets
-pub const OVERSIZE_LENGTHS: [usize; 4] = [1018, 1019, 2000, 65_530];
+/// lengths whose AVP would exceed 1023 octets, among them those at which a 12-, 14-, 16- or
+/// 17-bit intermediate wraps back into the 10-bit range (4096, 16384, 65536 .. 66559, 131072)
+pub const OVERSIZE_LENGTHS: [usize; 12] = [1018, 1019, 2000, 4090, 16_378, 65_529, 65_530, 65_531, 66_000, 66_553, 66_554, 131_072];
 
 fn byte_contents(n: usize) -> Vec<Vec<u8>> {
     let mut v = vec![ramp(n), vec![0u8; n], vec![0xffu8; n]];
